@@ -474,6 +474,16 @@ func (ndb *nodeDB) deleteVersion(version int64, cache *rootkeyCache) error {
 	}
 
 	literalRootKey := GetRootKey(version)
+	if rootKey == nil || !bytes.Equal(rootKey, literalRootKey) {
+		// if the root key is not matched with the literal root key, it means the given root
+		// is a reference root to the previous version (or the tree is empty). The marker goes
+		// first: if the batch is flushed before the orphans are gone, the version must not be
+		// listed any more while its nodes are being deleted.
+		if err := ndb.deleteFromPruning(ndb.nodeKey(literalRootKey)); err != nil {
+			return err
+		}
+	}
+
 	rootOrphaned, traversed := false, false
 	if rootKey != nil {
 		err := ndb.traverseOrphansWithRootkeyCache(cache, version, version+1, func(orphan *Node) error {
@@ -503,14 +513,6 @@ func (ndb *nodeDB) deleteVersion(version int64, cache *rootkeyCache) error {
 			return err
 		}
 		traversed = err == nil
-	}
-
-	if rootKey == nil || !bytes.Equal(rootKey, literalRootKey) {
-		// if the root key is not matched with the literal root key, it means the given root
-		// is a reference root to the previous version.
-		if err := ndb.deleteFromPruning(ndb.nodeKey(literalRootKey)); err != nil {
-			return err
-		}
 	}
 
 	// check if the version is referred by the next version
